@@ -140,6 +140,38 @@ def run(prop, tier="quick", replay=None, root=None, quiet=False):
                 known_hits.append((key, o, r))
             else:
                 violations.append((key, o, o.msg, r))
+    variant = None
+    if tier == "thorough":
+        # second configuration: the same rules on MIR built without overflow checks (release-like): no verdict may
+        # depend on the debug-only Assert terminators
+        try:
+            facts2, info2 = extract.facts_for(root, extra_flags="-C overflow-checks=off -C debug-assertions=off",
+                                              tag="-noovf")
+            ctx2 = Ctx(facts2, info2)
+            ctx2.tier = tier
+            res2 = mod.rules(ctx2, tier)
+            nb = 0
+            for r2 in res2:
+                for o in r2.obs:
+                    if not o.ok:
+                        key = o.key(prop, r2.rid)
+                        if key in known:
+                            continue
+                        nb += 1
+                        violations.append((key + "|cfg:overflow-checks=off", o,
+                                           "[overflow-checks=off build] " + o.msg, r2))
+            for pr in ctx2.world.problems:
+                nb += 1
+                violations.append(("%s|model|<crate>|%s|cfg:overflow-checks=off" % (prop, pr), None, pr, None))
+            variant = {"config": "-C overflow-checks=off -C debug-assertions=off",
+                       "bodies": len(ctx2.prog.bodies), "instances": sum(len(r2.obs) for r2 in res2), "violations": nb}
+            n_obs += 1
+            n_ok += 1 if nb == 0 else 0
+            emit("[%s-V] same rules on the overflow-checks=off build: %d instance(s), %d violation(s)" % (
+                prop, variant["instances"], nb))
+        except extract.ExtractError as e:
+            violations.append(("%s|variant|<crate>|build" % prop, None,
+                               "the overflow-checks=off configuration does not build: %s" % e, None))
     wit = []
     if tier == "thorough":
         from . import witness
@@ -229,6 +261,7 @@ def run(prop, tier="quick", replay=None, root=None, quiet=False):
         "facts_cached": info.get("cached"),
         "known_findings_reported": [k for k, _, _ in known_hits],
         "canaries": canaries,
+        "second_configuration": variant,
         "exhaustive": True,
         "not_decided": meta.get("not_decided", ""),
     }
